@@ -8,6 +8,8 @@ EQUIVALENT = {
     "c04_memset": "the big-endian decoder's memset only matters for a NON-zeroed target; the property quantifies over zeroed targets",
     "c14_c_bits8": "bits == 8 falls to the partial-byte path which ORs the same 8 bits into a zeroed byte",
     "c04_go_alias_bool": "r (= j % 8) is always 0 for a 1-bit field, the changed branch is unreachable",
+    "c08_scope_stack_not_passed": "lookup uses only the current proto's scopes and cycle detection the filepath stack: the scope_stack snapshot of imported definitions only affects generated names (C10/C15); the repo's own tests kill it",
+    "c13_equiv_go_hex": "deliberately equivalent (Go hex literal denotes the same value): must NOT raise an alarm",
     "c18_cache_unfrozen": "caches are identity-keyed: output is deterministically wrong (other properties), not order/process dependent",
 }
 EXTRA = {"c05_msg_prefix_c": ["C03"], "c07_opmode_mask": ["C04", "C07"], "c03_word16_thresh": ["C03", "C14"], "c04_be_fishift": ["C04", "C06"], "c04_be_assign": ["C04", "C06"], "c12_sort_str": ["C12", "C01"], "c12_hex_cap": ["C12", "C13"]}
